@@ -359,6 +359,55 @@ func run(args []string) error {
 				addDec(idx, e, append(append([]byte{}, bs...), 0, 0, 0, 0), "zero-count-appended")
 			}
 		}
+		// maxlen boundaries of the top-level slice field: exactly maxlen elements
+		// (must decode) and maxlen+1 (must fail with EMaxLen in both decoders and in
+		// the generated encoder); elements are minimal (empty inner slices)
+		{
+			t := reflect.TypeOf(e.c.New()).Elem()
+			for fi := 0; fi < t.NumField(); fi++ {
+				use, ml, _ := encField(t, fi)
+				if !use || ml <= 0 || ml > 600 || t.Field(fi).Type.Kind() != reflect.Slice {
+					continue
+				}
+				for _, n := range []int{ml, ml + 1} {
+					cheap := t.Field(fi).Type.Elem().Size() <= 40 // hashes, peers
+					if n == ml && !cheap && f.Tier == "quick" {
+						continue
+					}
+					obj := e.c.New()
+					g := &gen{r: r, maxEl: 0}
+					v := reflect.ValueOf(obj).Elem()
+					g.fill(v, 0, 0)
+					sl := reflect.MakeSlice(t.Field(fi).Type, n, n)
+					for i := 0; i < n; i++ {
+						g.fill(sl.Index(i), 0, 1)
+					}
+					v.Field(fi).Set(sl)
+					var rb []byte
+					if Guard(func() { rb = encoder.Serialize(obj) }) {
+						continue
+					}
+					addDec(idx, e, rb, fmt.Sprintf("maxlen%+d", n-ml))
+					var gb []byte
+					var gerr error
+					pg := Guard(func() { gb, gerr = e.c.Encode(obj) })
+					if n > ml || cheap {
+						var gs, rs uint64
+						Guard(func() { gs = e.c.Size(obj) })
+						Guard(func() { rs = encoder.Size(obj) })
+						genS := cresBytes(pg, gb, gerr)
+						refOpt := "None"
+						if cresBytes(false, rb, nil) != genS {
+							refOpt = fmt.Sprintf("(Some %d)", len(rb))
+						}
+						encCases = append(encCases, Tuple(fmt.Sprintf("%d%%nat", idx), topVal(obj), genS, refOpt, Z(gs), Z(rs)))
+						encJSON = append(encJSON, map[string]interface{}{"type": e.key, "gen_err": errKind(gerr), "gen_len": len(gb), "ref_len": len(rb), "kind": fmt.Sprintf("maxlen%+d", n-ml)})
+						hist.Add("enc:boundary:" + okOr(errKind(gerr)))
+						o.Count("encb"+e.key+fmt.Sprint(n), true)
+					}
+				}
+			}
+		}
 		// deterministic witness shape of finding F11: the zero value's encoding
 		// followed by an explicit zero count
 		{
